@@ -396,9 +396,11 @@ func runC06(args []string) int {
 				rep.Fail("harness:lookup-compile", cerr, t.String())
 				continue
 			}
-			table := []int64{3, 7, 7, 5, 20}
-			for _, q := range [][3]int64{{0, 4, 1}, {2, 3, 1}, {1, 1, 1}, {1, 4, 0}, {0, 7, -1}, {1, 3, 1}} {
+			for qi, q := range [][3]int64{{0, 4, 1}, {2, 3, 1}, {1, 1, 1}, {1, 4, 0}, {0, 7, -1}, {1, 3, 1}, {0, 4, 1}} {
 				i0, i1, ok := q[0], q[1], q[2]
+				// the table entries depend on the witness: one compiled system is solved with different tables in turn
+				ta, tb, tc := int64(3+qi), int64(4+2*qi), int64(5+3*qi)
+				table := []int64{ta, ta + tb, 7, tc, tb * tc}
 				r0, r1 := int64(0), int64(0)
 				if i0 < 5 {
 					r0 = table[i0]
@@ -409,12 +411,12 @@ func runC06(args []string) int {
 				if ok == 0 {
 					r1++
 				}
-				a := &lookupCircuit{A: 3, B: 4, C: 5, I0: i0, I1: i1, R0: r0, R1: r1}
+				a := &lookupCircuit{A: ta, B: tb, C: tc, I0: i0, I1: i1, R0: r0, R1: r1}
 				w, err := frontend.NewWitness(a, t.Field)
 				if err != nil {
 					continue
 				}
-				flat := []*big.Int{bi(r0), bi(r1), bi(3), bi(4), bi(5), bi(i0), bi(i1)}
+				flat := []*big.Int{bi(r0), bi(r1), bi(ta), bi(tb), bi(tc), bi(i0), bi(i1)}
 				expect := int(ok)
 				if ok == -1 {
 					expect = 0
